@@ -215,7 +215,7 @@ def fwd_grad_chooser(g, ans, x, axis=None, keepdims=False):
     if anp.isscalar(x):
         return g
     if not keepdims:
-        if isinstance(axis, int):
+        if isinstance(axis, (int, onp.integer)):
             ans = anp.expand_dims(ans, axis)
         elif isinstance(axis, tuple):
             # re-insert the reduced axes in increasing order of their (non-negative) position
